@@ -138,36 +138,50 @@ Proof. exact c15_da_stale_tables_refuted. Qed.
 Print Assumptions C15_data_cache_refuted.
 
 (* returned objects are not altered by later conversions: whenever the conversion hands out
-   copies or nothing writes into handed-out objects *)
-Theorem C15_noalias : forall sp writes, (writes = false \/ k_copy sp = true) ->
+   copies (Grid level or UxDataArray level) or nothing writes into handed-out objects *)
+Theorem C15_noalias : forall sp writes copies, (writes = false \/ k_copy sp = true \/ copies = true) ->
   forall hist st objs, c15_objs_inv st objs ->
   forall i c, c15_obj_get i objs = Some c ->
-  c15_obj_get i (snd (c15_steps sp writes (st, objs) hist)) = Some c.
+  c15_obj_get i (snd (c15_steps sp writes copies (st, objs) hist)) = Some c.
 Proof. exact c15_noalias_thm. Qed.
 Print Assumptions C15_noalias.
 
 Theorem C15_noalias_line : forall hist st objs, c15_objs_inv st objs ->
   forall i c, c15_obj_get i objs = Some c ->
-  c15_obj_get i (snd (c15_steps c15_sp_line false (st, objs) hist)) = Some c.
+  c15_obj_get i (snd (c15_steps c15_sp_line false false (st, objs) hist)) = Some c.
 Proof. exact c15_noalias_line. Qed.
 Print Assumptions C15_noalias_line.
 
 Theorem C15_noalias_poly : forall hist st objs, c15_objs_inv st objs ->
   forall i c, c15_obj_get i objs = Some c ->
-  c15_obj_get i (snd (c15_steps c15_sp_poly true (st, objs) hist)) = Some c.
+  c15_obj_get i (snd (c15_steps c15_sp_poly true false (st, objs) hist)) = Some c.
 Proof. exact c15_noalias_poly. Qed.
 Print Assumptions C15_noalias_poly.
 
+(* GeoDataFrame: refuted for the method as written (column written into the cached frame), proved
+   for the repaired method (column written into a copy) *)
 Theorem C15_noalias_gdf_refuted : exists hist,
-  let '(st1, objs1, id) := c15_step c15_sp_gdf c15_da_gdf_writes_column (c15_init, []) (None, c15_mk 1 0 true) in
-  c15_obj_get id (snd (c15_steps c15_sp_gdf c15_da_gdf_writes_column (st1, objs1) hist)) <> c15_obj_get id objs1.
+  let '(st1, objs1, id) := c15_step c15_sp_gdf true false (c15_init, []) (None, c15_mk 1 0 true) in
+  c15_obj_get id (snd (c15_steps c15_sp_gdf true false (st1, objs1) hist)) <> c15_obj_get id objs1.
 Proof. exact c15_noalias_gdf_refuted. Qed.
 Print Assumptions C15_noalias_gdf_refuted.
 
+Theorem C15_noalias_gdf_fixed : forall hist st objs, c15_objs_inv st objs ->
+  forall i c, c15_obj_get i objs = Some c ->
+  c15_obj_get i (snd (c15_steps c15_sp_gdf true true (st, objs) hist)) = Some c.
+Proof. exact c15_noalias_gdf_fixed. Qed.
+Print Assumptions C15_noalias_gdf_fixed.
+
 Theorem C15_gdf_columns_refuted :
-  let '(s1, o1, id1) := c15_step c15_sp_gdf c15_da_gdf_writes_column (c15_init, []) (Some 5, c15_mk 1 0 true) in
-  let '(s2, o2, id2) := c15_step c15_sp_gdf c15_da_gdf_writes_column (s1, o1) (Some 6, c15_mk 1 0 true) in
-  let '(s3, o3, id3) := c15_step c15_sp_gdf c15_da_gdf_writes_column (c15_init, []) (Some 6, c15_mk 1 0 true) in
+  let '(s1, o1, id1) := c15_step c15_sp_gdf true false (c15_init, []) (Some 5, c15_mk 1 0 true) in
+  let '(s2, o2, id2) := c15_step c15_sp_gdf true false (s1, o1) (Some 6, c15_mk 1 0 true) in
+  let '(s3, o3, id3) := c15_step c15_sp_gdf true false (c15_init, []) (Some 6, c15_mk 1 0 true) in
   c15_obj_get id2 o2 <> c15_obj_get id3 o3.
 Proof. exact c15_gdf_columns_refuted. Qed.
 Print Assumptions C15_gdf_columns_refuted.
+
+Theorem C15_gdf_columns_fixed : forall st objs var a,
+  let '(st', objs', id) := c15_step c15_sp_gdf true true (st, objs) (Some var, a) in
+  exists built, c15_obj_get id objs' = Some (built, [var]).
+Proof. exact c15_gdf_columns_fixed. Qed.
+Print Assumptions C15_gdf_columns_fixed.
